@@ -450,13 +450,13 @@ def relateDef (types : List (Name × Definition)) (d : Definition) (pi : Rel × 
   match d.kind with
   | .union =>
     d.types.foldl (fun (p, i) t => (pushPtr d.name (ptrOf types t) p, pushKV t (some d.name) i)) pi
-  | .inputObject | .object =>
+  | .object =>
     let (p, i) := d.interfaces.foldl
       (fun (p, i) intf => (pushKV intf (some d.name) p, pushPtr d.name (ptrOf types intf) i)) pi
     (pushKV d.name (some d.name) p, i)
   | .interface =>
     d.interfaces.foldl (fun (p, i) intf => (pushKV intf (some d.name) p, pushPtr d.name (ptrOf types intf) i)) pi
-  | .scalar | .enum => pi
+  | .scalar | .enum | .inputObject => pi     -- `case Object:` only: an input object contributes nothing
 
 def buildRelations (types : List (Name × Definition)) : Rel × Rel :=
   (types.map Prod.snd).foldl (fun pi d => relateDef types d pi) ([], [])
